@@ -185,6 +185,22 @@ def cmd_silence(a):
     return 1 if bad else 0
 
 
+def cmd_standin(a):
+    """Observation-only second configuration: pure-Python pysecp256k1 stand-in => the libsecp `try:` arms execute."""
+    props = a.props.split(",") if a.props else ["C01", "C02", "C03", "C05", "C06", "C07", "C09", "C12", "C13", "C14", "C16", "C18"]
+    total = 0
+    for prop in props:
+        env = dict(os.environ, PYTHONPATH=VERIF, PYTHONHASHSEED="0")
+        p = subprocess.run([PY, "-m", "vpkg.driver", prop, "--tier", a.tier, "--backend", "standin"], cwd=VERIF, env=env, capture_output=True, text=True)
+        for ln in p.stdout.splitlines():
+            if ln.startswith(("OBSERVATION", "NOTE", "STANDIN-DONE")):
+                print(ln[:400], flush=True)
+            if ln.startswith("OBSERVATION"):
+                total += 1
+    print("stand-in configuration: %d observation(s) over %s" % (total, props))
+    return 0
+
+
 def cmd_suite(a):
     """Repository's own suite with every probe installed (pytest plugin vpkg.suiteprobe)."""
     out = os.path.join(VERIF, ".run", "suiteprobe.json")
@@ -216,11 +232,14 @@ def main():
     q.add_argument("--tier", default="quick")
     q.add_argument("--props", default=None)
     sub.add_parser("suite")
+    st = sub.add_parser("standin")
+    st.add_argument("--props", default=None)
+    st.add_argument("--tier", default="quick")
     bn = sub.add_parser("benign")
     bn.add_argument("--suite", action="store_true")
     bn.add_argument("--jobs", type=int, default=3)
     a = ap.parse_args()
-    sys.exit({"mutants": cmd_mutants, "seeded": cmd_seeded, "silence": cmd_silence, "suite": cmd_suite, "benign": cmd_benign}[a.cmd](a))
+    sys.exit({"mutants": cmd_mutants, "seeded": cmd_seeded, "silence": cmd_silence, "suite": cmd_suite, "benign": cmd_benign, "standin": cmd_standin}[a.cmd](a))
 
 
 if __name__ == "__main__":
